@@ -13,7 +13,7 @@
 //	g.new <ps> <total> <files|-> <index> <seed> <prefill>          torrent + GetRight/Hoffman web seeds on a local server
 //	g.fetch <offset> <length> <resp/resp/...>  tor.webseedGR; resp per file chunk: pad | T | status;cl;crhex;fileoff:len:junk;fin
 //	h.fetch <offset> <length> <status;cl;len;junk;fin>            tor.webseedH
-//	g.maybe                                    tor.maybeWebseed (hole, reservation, fetch goroutine) against an honest server
+//	g.maybe <h|e>                              tor.maybeWebseed (hole choice, 1 MiB cap, reservation, fetch goroutine); the server answers honestly / with 404
 //	pcr <hex>                                  webseed.parseContentRange
 //
 // Stream byte i of a writer case is pat(seed, off+i), i.e. the piece's reference content, so a
@@ -67,8 +67,9 @@ type fileSpec struct {
 
 func bstr(s string) string { return fmt.Sprintf("%d:%s", len(s), s) }
 
-// metainfo builds a .torrent; content is the reference content (for the piece hashes).
-func metainfo(ps int, total int64, files []fileSpec, content []byte) []byte {
+// metainfo builds a .torrent; hashOf gives the SHA-1 of piece i (nil or a nil result: zeros — the
+// hash of a piece matters only where the harness completes that piece).
+func metainfo(ps int, total int64, files []fileSpec, hashOf func(i int) []byte) []byte {
 	var b bytes.Buffer
 	b.WriteString("d4:infod")
 	if files != nil {
@@ -88,17 +89,31 @@ func metainfo(ps int, total int64, files []fileSpec, content []byte) []byte {
 	fmt.Fprintf(&b, "12:piece lengthi%de", ps)
 	np := int((total + int64(ps) - 1) / int64(ps))
 	fmt.Fprintf(&b, "6:pieces%d:", 20*np)
+	var zero [20]byte
 	for i := 0; i < np; i++ {
+		var h []byte
+		if hashOf != nil {
+			h = hashOf(i)
+		}
+		if h == nil {
+			h = zero[:]
+		}
+		b.Write(h)
+	}
+	b.WriteString("ee")
+	return b.Bytes()
+}
+
+func hashOfContent(ps int, content []byte) func(i int) []byte {
+	return func(i int) []byte {
 		lo := i * ps
 		hi := lo + ps
 		if hi > len(content) {
 			hi = len(content)
 		}
 		h := sha1.Sum(content[lo:hi])
-		b.Write(h[:])
+		return h[:]
 	}
-	b.WriteString("ee")
-	return b.Bytes()
 }
 
 type ev struct {
@@ -195,7 +210,7 @@ type state struct {
 	total   int64
 	files   []fileSpec
 	srv     *server
-	ref     []byte      // reference content of the torrent
+	pads    [][2]int    // absolute ranges of the padding files
 	snap    []byte      // piece content before the fetch (for blocks already present)
 	legit   map[int]int // absolute torrent position -> byte value the writer may store there (-1: none)
 	fetchLo int
@@ -324,7 +339,7 @@ func (s *state) wNew(pl, off, cnt, seed int, pf string) string {
 	}
 	content := make([]byte, total)
 	copy(content[int(index)*ps:], patBytes(seed, 0, pl))
-	t, err := tor.ReadTorrent("", bytes.NewReader(metainfo(ps, total, nil, content)))
+	t, err := tor.ReadTorrent("", bytes.NewReader(metainfo(ps, total, nil, hashOfContent(ps, content))))
 	if err != nil {
 		panic(err)
 	}
@@ -461,7 +476,7 @@ func (s *state) sFill() string {
 		data := s.t.Pieces.VerifPieceData(s.index)
 		for b := 0; b < nblocks(s.pl) && data != nil; b++ {
 			lo := int(s.index)*s.ps + b*CS
-			if vp.Bitmap.Get(b) && !bytes.Equal(data[b*CS:b*CS+blockLen(s.pl, b)], s.ref[lo:lo+blockLen(s.pl, b)]) {
+			if vp.Bitmap.Get(b) && !bytes.Equal(data[b*CS:b*CS+blockLen(s.pl, b)], s.refB(lo, blockLen(s.pl, b))) {
 				return "skip"
 			}
 		}
@@ -473,7 +488,7 @@ func (s *state) sFill() string {
 				blk = patBytes(s.seed, b*CS, blockLen(s.pl, b))
 			} else {
 				lo := int(s.index)*s.ps + b*CS
-				blk = s.ref[lo : lo+blockLen(s.pl, b)]
+				blk = s.refB(lo, blockLen(s.pl, b))
 			}
 			_, _, err := s.t.Pieces.AddData(s.index, uint32(b*CS), blk, 1)
 			if err != nil {
@@ -729,10 +744,20 @@ func fcStr(cs []chunk) string {
 	return strings.Join(s, ";")
 }
 
+// the torrent of the previous fc op (several queries on one large layout parse it once)
+var fcCacheKey string
+var fcCacheT *tor.Torrent
+
 func (s *state) fcOp(ps int, total int64, files []fileSpec, index, offset, length int) string {
-	t, err := tor.ReadTorrent("", bytes.NewReader(metainfo(ps, total, files, make([]byte, total))))
-	if err != nil {
-		return "torrent-error:" + err.Error()
+	key := fmt.Sprintf("%d %d %s", ps, total, filesStr(files))
+	t := fcCacheT
+	if key != fcCacheKey || t == nil {
+		var err error
+		t, err = tor.ReadTorrent("", bytes.NewReader(metainfo(ps, total, files, nil)))
+		if err != nil {
+			return "torrent-error:" + err.Error()
+		}
+		fcCacheKey, fcCacheT = key, t
 	}
 	var got []chunk
 	pn := vhlib.Recover(func() {
@@ -831,6 +856,7 @@ type server struct {
 	reqs []reqLog
 	segR *vhlib.Rand
 	honest bool
+	all404 bool
 }
 
 var rangeRe = regexp.MustCompile(`^bytes=(\d+)-(\d+)$`)
@@ -862,6 +888,9 @@ func (sv *server) handle(w http.ResponseWriter, r *http.Request) {
 	sp, ok := sv.spec[idx]
 	segR := sv.segR
 	honest := sv.honest
+	if sv.all404 {
+		sp, ok = respSpec{status: 404, cl: "-", n: 0, junk: 2, fin: 'e'}, true
+	}
 	sv.mu.Unlock()
 	if !ok && honest && st != nil && rl.first >= 0 && idx >= 0 {
 		// an honest server: exactly the requested bytes of the file
@@ -934,34 +963,51 @@ func (s *state) bodyBytes(idx int, sp respSpec) []byte {
 	body := patBytes(s.seed, base+sp.fileoff, sp.n)
 	if idx == -1 { // Hoffman serves the torrent's content (zeros in padding files)
 		base = int(s.index) * s.ps
-		body = patBytes(s.seed, base+sp.fileoff, sp.n)
-		for i := range body {
-			if x := base + sp.fileoff + i; x < len(s.ref) {
-				body[i] = s.ref[x]
-			}
-		}
+		body = s.refB(base+sp.fileoff, sp.n)
 	}
 	return append(body, patBytes(s.seed+7, 0, sp.junk)...)
 }
 
-// refContent: the torrent's reference content, zeros in padding files, the pattern elsewhere
-func refContent(seed int, total int64, files []fileSpec) []byte {
-	content := patBytes(seed, 0, int(total))
-	var fo int64
-	for _, f := range files {
-		if f.pad {
-			for i := fo; i < fo+f.length; i++ {
-				content[i] = 0
-			}
+// refB: bytes [lo, lo+n) of the torrent's reference content — zeros in padding files, the pattern
+// elsewhere — computed on demand (torrents of several GiB are never materialised)
+func (s *state) refB(lo, n int) []byte {
+	b := patBytes(s.seed, lo, n)
+	for _, p := range s.pads {
+		a, e := p[0], p[1]
+		if a < lo {
+			a = lo
 		}
-		fo += f.length
+		if e > lo+n {
+			e = lo + n
+		}
+		for x := a; x < e; x++ {
+			b[x-lo] = 0
+		}
 	}
-	return content
+	return b
 }
 
 func (s *state) gNew(ps int, total int64, files []fileSpec, index, seed int, pf string) string {
-	content := refContent(seed, total, files)
-	t, err := tor.ReadTorrent("", bytes.NewReader(metainfo(ps, total, files, content)))
+	var pads [][2]int
+	var fo int64
+	for _, f := range files {
+		if f.pad && f.length > 0 {
+			pads = append(pads, [2]int{int(fo), int(fo + f.length)})
+		}
+		fo += f.length
+	}
+	pl0 := ps
+	if int64(index+1)*int64(ps) > total {
+		pl0 = int(total - int64(index)*int64(ps))
+	}
+	tmp := &state{seed: seed, pads: pads}
+	t, err := tor.ReadTorrent("", bytes.NewReader(metainfo(ps, total, files, func(i int) []byte {
+		if i != index {
+			return nil // only the piece under test is ever completed
+		}
+		h := sha1.Sum(tmp.refB(index*ps, pl0))
+		return h[:]
+	})))
 	if err != nil {
 		return "torrent-error:" + err.Error()
 	}
@@ -975,8 +1021,8 @@ func (s *state) gNew(ps int, total int64, files []fileSpec, index, seed int, pf 
 		files: files, srv: srv, storeOpen: true, logbuf: &syncBuf{}}
 	t.Log.SetOutput(s.logbuf)
 	t.Log.SetFlags(0)
-	s.ref = content
-	s.prefill(pf, func(b int) []byte { return content[index*ps+b*CS : index*ps+b*CS+blockLen(pl, b)] })
+	s.pads = pads
+	s.prefill(pf, func(b int) []byte { return s.refB(index*ps+b*CS, blockLen(pl, b)) })
 	return "ok"
 }
 
@@ -1257,16 +1303,20 @@ func (s *state) checkFetch(kindp string) {
 	}
 }
 
-// gMaybe drives the real maybeWebseed (hole selection, reservation, fetch goroutine) against
-// an honest server.
-func (s *state) gMaybe() string {
+// gMaybe drives the real maybeWebseed (hole selection, cap, reservation, fetch goroutine) against
+// a server that answers every request honestly (mode "h") or with 404 (mode "e").
+// The harness never feeds the writer's events to the torrent, so reservations accumulate in
+// t.inFlight from one g.maybe to the next — as they would while earlier fetches are running.
+func (s *state) gMaybe(mode string) string {
 	cpp := s.ps / CS
-	// the property's notion of the hole: first missing block up to the next present one
 	vp := s.t.Pieces.VerifPiece(s.index)
 	nb := nblocks(s.pl)
+	before := s.t.VerifInFlight()
+	// the property's notion of what is fetched: from the first missing block nobody is working
+	// on up to the next present block, at most 1 MiB for a web seed without rate history
 	first := -1
 	for b := 0; b < nb; b++ {
-		if !vp.Bitmap.Get(b) {
+		if !vp.Bitmap.Get(b) && before[int(s.index)*cpp+b] == 0 {
 			first = b
 			break
 		}
@@ -1276,13 +1326,13 @@ func (s *state) gMaybe() string {
 		end++
 	}
 	s.srv.mu.Lock()
-	s.srv.st, s.srv.spec, s.srv.reqs, s.srv.honest = s, map[int]respSpec{}, nil, true
+	s.srv.st, s.srv.spec, s.srv.reqs = s, map[int]respSpec{}, nil
+	s.srv.honest, s.srv.all404 = mode != "e", mode == "e"
 	s.srv.segR = vhlib.NewRand(uint64(s.seed) + 99)
 	s.srv.mu.Unlock()
-	defer func() { s.srv.mu.Lock(); s.srv.honest = false; s.srv.mu.Unlock() }()
+	defer func() { s.srv.mu.Lock(); s.srv.honest, s.srv.all404 = false, false; s.srv.mu.Unlock() }()
 	ws := webseed.New(s.srv.ts.URL+"/gr/", true)
 	s.t.VerifSetWebseeds([]webseed.Webseed{ws})
-	before := s.t.VerifInFlight()
 	s.events = nil
 	s.snap = s.t.Pieces.VerifPieceData(s.index)
 	ctx, cancel := context.WithTimeout(context.Background(), 30*time.Second)
@@ -1296,39 +1346,42 @@ func (s *state) gMaybe() string {
 	after := s.t.VerifInFlight() // the reservation is made before the fetch goroutine starts
 	var res []int
 	for c := range after {
-		if after[c] != before[c] {
+		for k := before[c]; k < after[c]; k++ {
 			res = append(res, c-int(s.index)*cpp)
+		}
+		if after[c] < before[c] {
+			s.c.Violate("maybewebseed-reservation:released-foreign", fmt.Sprintf("chunk %d: %d -> %d", c, before[c], after[c]), caseOps())
 		}
 	}
 	expectOK := first >= 0 && vp.State == 0 && !s.t.Pieces.VerifDeleted()
 	if ok != expectOK {
-		s.c.Violate("maybewebseed-decision", fmt.Sprintf("returned %v with first hole at block %d, state %d", ok, first, vp.State), caseOps())
+		s.c.Violate("maybewebseed-decision", fmt.Sprintf("returned %v with first idle hole at block %d, state %d", ok, first, vp.State), caseOps())
 	}
 	if !ok {
 		if len(res) != 0 {
 			s.c.Violate("maybewebseed-reserved-without-fetch", fmt.Sprint(res), caseOps())
 		}
-		s.c.Count("m:none", "no hole / piece not open", true)
+		s.c.Count("m:none", "no idle hole / piece not open", true)
 		return "ok=0 res=- data=0 drop=none"
 	}
-	o := first * CS
-	l := (end - first) * CS
-	if end == nb {
-		l = s.pl - o
+	if first < 0 {
+		return fmt.Sprintf("ok=1 res=%v", res)
 	}
-	// oracle: exactly the blocks of the hole are reserved, once each
-	want := []int{}
-	for b := first; b < end; b++ {
+	o := first * CS
+	hole := (end - first) * CS
+	if end == nb {
+		hole = s.pl - o
+	}
+	l := hole
+	if l > 1<<20 {
+		l = 1 << 20
+	}
+	// oracle: exactly the blocks of the range that will be fetched are reserved, once each
+	var want []int
+	for b := first; b*CS < o+l; b++ {
 		want = append(want, b)
 	}
-	if fmt.Sprint(res) != fmt.Sprint(want) {
-		s.c.Violate("maybewebseed-reservation", fmt.Sprintf("reserved %v, hole is blocks %v", res, want), caseOps())
-	}
-	for c := range after {
-		if after[c] > before[c]+1 {
-			s.c.Violate("maybewebseed-reservation:twice", fmt.Sprintf("chunk %d", c), caseOps())
-		}
-	}
+	resOK := fmt.Sprint(res) == fmt.Sprint(want)
 	// wait for the fetch goroutine: its events tile [o, o+l)
 	deadline := time.Now().Add(20 * time.Second)
 	sum := 0
@@ -1343,23 +1396,70 @@ func (s *state) gMaybe() string {
 	if sum < l {
 		s.c.Violate("hang:maybeWebseed", fmt.Sprintf("events cover %d of %d bytes after 20 s", sum, l), caseOps())
 	}
+	// oracle: every block reserved for the fetch is released by the fetch's events when it ends
+	var rel []int
+	for _, e := range s.events {
+		for i := 0; i < ceilDiv(int(e.count), CS); i++ {
+			rel = append(rel, int(e.begin)/CS+i)
+		}
+	}
+	if fmt.Sprint(rel) != fmt.Sprint(res) {
+		s.c.Violate("maybewebseed-reservation-unbalanced", fmt.Sprintf("reserved blocks %s, released by TorData/TorDrop %s (hole %d+%d, fetched %d)",
+			brief(res), brief(rel), o, hole, l), caseOps())
+	} else if !resOK {
+		s.c.Violate("maybewebseed-reservation", fmt.Sprintf("reserved %s, the range to fetch is blocks %s", brief(res), brief(want)), caseOps())
+	}
 	s.off0, s.cnt0 = o, l
 	A := int(s.index)*s.ps + o
 	s.fetchLo, s.fetchHi = A, A+l
-	// what the honest server sent is the reference content of the non-padding files, zeros for padding
 	s.legit = map[int]int{}
-	for x := A; x < A+l; x++ {
-		s.legit[x] = int(s.ref[x])
+	if mode != "e" {
+		// what the honest server sent is the reference content; zeros for padding
+		for i, v := range s.refB(A, l) {
+			s.legit[A+i] = int(v)
+		}
+	} else {
+		part := partition(s.files, s.total, int64(A), int64(l))
+		for _, p := range part {
+			if !p.pad {
+				break
+			}
+			for i := int64(0); i < p.leng; i++ {
+				s.legit[s.fileBase(p.idx)+int(p.off+i)] = 0
+			}
+		}
 	}
-	s.allHonest = true
+	s.allHonest = mode != "e"
 	s.checkFetch("maybewebseed")
 	data, drop := fetchObs(s.events)
-	s.c.Count(fmt.Sprintf("m:fetch:%dblocks", len(res)), fmt.Sprintf("hole %d+%d", o, l), true)
+	s.c.Count(fmt.Sprintf("m:fetch:%s:%s", mode, sizeClass(len(res))), fmt.Sprintf("hole %d+%d fetch %d", o, hole, l), true)
+	if hole > l {
+		s.c.Count("m:capped", fmt.Sprintf("hole %d+%d fetch %d", o, hole, l), true)
+	}
 	first0 := 0
 	if len(res) > 0 {
 		first0 = res[0]
 	}
-	return fmt.Sprintf("ok=1 res=%d+%d data=%d drop=%s", first0, len(res), data, drop)
+	return fmt.Sprintf("ok=1 res=%d+%d log=%s data=%d drop=%s", first0, len(res), s.logClasses(), data, drop)
+}
+
+func sizeClass(n int) string {
+	switch {
+	case n <= 4:
+		return fmt.Sprintf("%dblocks", n)
+	case n < 64:
+		return "5-63blocks"
+	case n == 64:
+		return "64blocks"
+	}
+	return ">64blocks"
+}
+
+func brief(v []int) string {
+	if len(v) <= 8 {
+		return fmt.Sprint(v)
+	}
+	return fmt.Sprintf("[%d %d %d ... %d] (%d)", v[0], v[1], v[2], v[len(v)-1], len(v))
 }
 
 func (s *state) hFetch(offset, length int, rs string) string {
@@ -1567,10 +1667,10 @@ func (s *state) exec(op string) string {
 		}
 		return s.gFetch(o, l, f[3])
 	case "g.maybe":
-		if s.kind != "g" {
+		if s.kind != "g" || len(f) != 2 || (f[1] != "h" && f[1] != "e") {
 			return bad
 		}
-		return s.gMaybe()
+		return s.gMaybe(f[1])
 	case "h.fetch":
 		if len(f) != 4 || s.kind != "g" {
 			return bad
